@@ -54,9 +54,29 @@ def st_blocked_head(draw):
 
 
 @st.composite
+def st_reissue(draw):
+    """family: a second keep request names a virtual qubit that is still allocated when the request instruction runs; the
+    program frees it afterwards, so the response only has to wait at arrival time"""
+    role0, role1 = draw(st.sampled_from(["recv", "create"])), draw(st.sampled_from(["recv", "create"]))
+    remote, sock = draw(st.sampled_from([1, 2])), draw(st.sampled_from([0, 1]))
+    same_queue = draw(st.booleans())
+    r1 = (remote, sock) if same_queue else draw(st.sampled_from([(r_, s_) for r_ in (1, 2) for s_ in (0, 1) if (r_, s_) != (remote, sock)]))
+    reqs = [
+        {"role": role0, "tp": "K", "n": 1, "remote": remote, "sock": sock, "ids": [0], "reuse": False, "sub": 0, "wait": "all", "spare": 0},
+        {"role": role1, "tp": "K", "n": 1, "remote": r1[0], "sock": r1[1], "ids": [0], "reuse": False, "sub": 0, "wait": draw(st.sampled_from(["all", "single"])), "spare": 0},
+    ]
+    fill = lambda a, b: [["filler"]] * draw(st.integers(a, b))  # noqa: E731
+    ops: List[Any] = [["req", 0]] + fill(0, 2) + [["wait", 0]] + fill(0, 1) + [["req", 1]] + fill(0, 4) + [["free", 0, 0]] + fill(0, 2) + [["wait", 1], ["ret", 0], ["ret", 1]]
+    return {"reqs": reqs, "subs": [ops], "schedule": draw(st.lists(st.integers(0, 5), min_size=0, max_size=30)), "purpose_offset": draw(st.sampled_from([0, 1])), "family": "reissue-on-allocated-qubit"}
+
+
+@st.composite
 def st_scenario(draw):
-    if draw(st.integers(0, 4)) == 0:
+    fam = draw(st.integers(0, 9))
+    if fam <= 1:
         return draw(st_blocked_head())
+    if fam == 2:
+        return draw(st_reissue())
     nsub = draw(st.integers(1, 3))
     nreq = draw(st.integers(1, 3))
     reqs = []
